@@ -223,6 +223,14 @@ def run(ctx):
         if i % 2 == 0:
             Td = np.linspace(0, 2.0, 401)
             safe_complement(ctx, spec, Td, seeds[0])
+    # a chain whose steps are governed by one rate constant (in user code: one dict object handed to every step)
+    chain = {"species": ["A", "B", "C"], "reactions": [
+        {"reactants": ["A"], "products": ["B"], "prop": {"type": "massaction", "k": "k0"}},
+        {"reactants": ["B"], "products": ["C"], "prop": {"type": "massaction", "k": "k0"}},
+        {"reactants": ["C"], "products": [], "prop": {"type": "massaction", "k": "k0"}}],
+        "params": {"k0": 1.0}, "ic": {"A": 30, "B": 0, "C": 0}, "needs_safe": False}
+    for kind in ("ssa", "volume", "delay"):
+        one(ctx, chain, kind, np.linspace(0, 5.0, 51), [rng.randint(1, 2**31) for _ in range(2)], False)
     complement_family(ctx)
 
 
